@@ -145,3 +145,54 @@ Theorem C04_map_stable_inv :
     M.map_stable go_levels 0 vmm_pdtVirtualAddr (frame_addr page) s.
 Proof. intros s A T own page. apply StableInv.map_stable_inv. Qed.
 Print Assumptions C04_map_stable_inv.
+
+(** ---- with the exact sequence of seam calls (added after the audit) ----
+    [M.map_page_tr] is [map_page] with the seam calls written next to it - mm.AllocFrame, nextAddrFn, kernel.Memset for
+    every table created (in that order), flushTLBEntryFn of the page at the leaf - and [C04_map_tr_is_model] says that
+    forgetting them gives [map_page] exactly.  The regenerated Map / Unmap make exactly these calls, in this order. *)
+Theorem C04_map_is_translation_calls :
+  forall (page frame flags : N) (s : st) (tr0 : list gcall),
+    flags < two64 -> T.mem_w64 s ->
+    M.map_stable go_levels 0 vmm_pdtVirtualAddr (frame_addr page) s ->
+    go_vmm_Map (mk_go_vmm_world tr0 s) page frame flags T.o_flush T.o_memset M.o_alloc M.o_id =
+    match M.map_page_tr page frame flags s tr0 with
+    | None => GPanic
+    | Some (s', e, tr') => GOk (mk_go_vmm_world tr' s', T.err_of e)
+    end.
+Proof. exact M.map_is_translation_calls. Qed.
+Print Assumptions C04_map_is_translation_calls.
+
+Theorem C04_map_tr_is_model :
+  forall (page frame flags : N) (s : st) (tr0 : list gcall),
+    match M.map_page_tr page frame flags s tr0 with
+    | None => Stray
+    | Some (s', e, _) => Ok (s', e)
+    end = map_page page frame flags s.
+Proof. exact M.map_page_tr_model. Qed.
+Print Assumptions C04_map_tr_is_model.
+
+Theorem C04_map_is_translation_calls_inv :
+  forall (s : st) (A T : N) (own : PtTree.ownmap) (page frame flags : N) (tr0 : list gcall),
+    Inv s A T own -> hw_idx page 0 <> 511 -> flags < two64 -> T.mem_w64 s ->
+    go_vmm_Map (mk_go_vmm_world tr0 s) page frame flags T.o_flush T.o_memset M.o_alloc M.o_id =
+    match M.map_page_tr page frame flags s tr0 with
+    | None => GPanic
+    | Some (s', e, tr') => GOk (mk_go_vmm_world tr' s', T.err_of e)
+    end.
+Proof.
+  intros s A T own page frame flags tr0 HI H511 Hfl Hw.
+  apply M.map_is_translation_calls; try assumption. eapply StableInv.map_stable_inv; eassumption.
+Qed.
+Print Assumptions C04_map_is_translation_calls_inv.
+
+(** Unmap: one flushTLBEntryFn of the page, exactly when it succeeds *)
+Theorem C04_unmap_is_translation_calls :
+  forall (page : N) (s : st) (tr0 : list gcall),
+    T.mem_w64 s ->
+    go_vmm_Unmap (mk_go_vmm_world tr0 s) page T.o_flush =
+    match unmap_page page s with
+    | Stray => GPanic
+    | Ok (s', e) => GOk (mk_go_vmm_world (if e =? 0 then T.ev_flush (frame_addr page) :: tr0 else tr0) s', T.err_of e)
+    end.
+Proof. exact M.unmap_is_translation_calls. Qed.
+Print Assumptions C04_unmap_is_translation_calls.
